@@ -69,6 +69,8 @@ type State struct {
 	Clock       string
 	ClockMax    string
 	EqLits      map[string]string // terms an Assume fixed to a literal string
+	B64         map[string]StrV   // base64 encoding term -> the string that was encoded
+	BlobOf      map[string]int    // opaque string standing for a structured blob -> heap object
 	Now0        string
 	Occ         map[string]int
 	Nondet      []NondetRec
@@ -123,6 +125,18 @@ func (s *State) Fork() *State {
 		n.EqLits = make(map[string]string, len(s.EqLits))
 		for k, v := range s.EqLits {
 			n.EqLits[k] = v
+		}
+	}
+	if s.B64 != nil {
+		n.B64 = make(map[string]StrV, len(s.B64))
+		for k, v := range s.B64 {
+			n.B64[k] = v
+		}
+	}
+	if s.BlobOf != nil {
+		n.BlobOf = make(map[string]int, len(s.BlobOf))
+		for k, v := range s.BlobOf {
+			n.BlobOf[k] = v
 		}
 	}
 	if s.Sched != nil {
